@@ -142,6 +142,9 @@ func (c *Ctx) ruleExcerpt() {
 			if !ok || call.Call.StaticCallee() == nil || !strings.HasSuffix(FuncName(call.Call.StaticCallee()), "Reporter).getFileLines") {
 				return false
 			}
+			if len(call.Call.Args) < 2 {
+				return false
+			}
 			_, isParam := call.Call.Args[1].(*ssa.Parameter)
 			return isParam
 		})
@@ -325,7 +328,7 @@ func (c *Ctx) ruleCaretLine(fmtFn *ssa.Function) {
 		})
 	}
 	name := FuncName(fmtFn)
-	if trunc == nil || disp == nil {
+	if trunc == nil || disp == nil || len(trunc.Call.Args) < 3 || len(disp.Call.Args) < 3 {
 		c.fail("EXCERPT/CARET-LINE", name, P.Pos(fmtFn.Pos()), "formatter does not call truncateString / calculateDisplayColumn")
 		return
 	}
@@ -336,6 +339,8 @@ func (c *Ctx) ruleCaretLine(fmtFn *ssa.Function) {
 	cols := isColumn(trunc.Call.Args[2]) && isColumn(disp.Call.Args[1])
 	c.check(sameLine && sameLimit && cols, "EXCERPT/CARET-ARGS", name, where, "caret column and displayed text are computed from the same source line, the same limit and the diagnostic's column",
 		fmt.Sprintf("truncateString and calculateDisplayColumn are not given the same source line / limit / the diagnostic's column [line:%v limit:%v column:%v]", sameLine, sameLimit, cols))
+	c.ruleCaretColumn(trunc, disp)
+	c.ruleCaretPad(trunc, disp)
 	// the element of content and the element of lineNumbers with the same index
 	lineIdx := elemIndexOf(P, trunc.Call.Args[0], "content")
 	var numIdx ssa.Value
